@@ -207,6 +207,7 @@ type hJSON struct {
 	Kind    string      `json:"kind"`
 	PAC     pacDesc     `json:"pac"`
 	Pooled  bool        `json:"pooled"`
+	Concurrent bool     `json:"concurrent,omitempty"` // the look-ups run at the same time (pool only)
 	Queries [][2]string `json:"queries"` // url, hostname argument ("" = from the URL)
 }
 
@@ -218,6 +219,7 @@ func genHistory(r *rng.R, corpus bool) hJSON {
 		return h
 	}
 	h.Pooled = r.Chance(1, 2)
+	h.Concurrent = h.Pooled && r.Chance(1, 2)
 	hosts := []string{"origin.test", "other.test", "localhost"}
 	for _, hn := range hosts {
 		switch r.Intn(4) {
@@ -279,19 +281,44 @@ func hCase(h hJSON) (string, error) {
 		}
 		shared = p
 	}
-	var parts []string
-	for _, q := range h.Queries {
+	type ans struct {
+		s   string
+		err error
+	}
+	got := make([]ans, len(h.Queries))
+	urls := make([]*url.URL, len(h.Queries))
+	for i, q := range h.Queries {
 		u, err := url.Parse(q[0])
 		if err != nil {
 			return "", err
 		}
-		a, aerr := shared.FindProxyForURL(u, q[1])
+		urls[i] = u
+	}
+	if h.Concurrent {
+		var wg sync.WaitGroup
+		for i := range h.Queries {
+			wg.Add(1)
+			go func(i int) {
+				defer wg.Done()
+				for k := 0; k < 5; k++ { // several rounds; the last answer is compared
+					got[i].s, got[i].err = shared.FindProxyForURL(urls[i], h.Queries[i][1])
+				}
+			}(i)
+		}
+		wg.Wait()
+	} else {
+		for i := range h.Queries {
+			got[i].s, got[i].err = shared.FindProxyForURL(urls[i], h.Queries[i][1])
+		}
+	}
+	var parts []string
+	for i, q := range h.Queries {
 		fresh, err := pac.NewProxyResolver(cfg, nil)
 		if err != nil {
 			return "", err
 		}
-		f, ferr := fresh.FindProxyForURL(u, q[1])
-		parts = append(parts, "("+coqOptStr(a, aerr)+", "+coqOptStr(f, ferr)+")")
+		f, ferr := fresh.FindProxyForURL(urls[i], q[1])
+		parts = append(parts, "("+coqOptStr(got[i].s, got[i].err)+", "+coqOptStr(f, ferr)+")")
 	}
 	return "{| h_answers := " + coqfmt.List("(option (list N) * option (list N))", parts) + " |}", nil
 }
@@ -326,6 +353,10 @@ func genRulesFor(r *rng.R, hosts, ports []string) []string {
 	n := r.Intn(4)
 	var out []string
 	for i := 0; i < n; i++ {
+		if r.Chance(1, 8) { // a rule that changes nothing, possibly shadowing later ones
+			out = append(out, r.Pick([]string{":::", "origin.test:80::", ":80::", "origin.test:::"}))
+			continue
+		}
 		sh := r.Pick(append([]string{"", ""}, hosts...))
 		sp := r.Pick(append([]string{"", ""}, ports...))
 		dh := r.Pick([]string{"", "rt.test", "rt2.test", "127.0.0.9", "::1"})
@@ -497,11 +528,15 @@ type eJSON struct {
 	Obs      []obsJSON `json:"observed,omitempty"`
 }
 
-func coqObs(o obsJSON, hostname string) string {
+func coqObs(o obsJSON, hostname string, tgtKind int) string {
 	dials := append([]string(nil), o.Dials...)
 	recv := "None"
 	if len(o.Recv) > 0 {
-		recv = fmt.Sprintf("(Some (%s, %s, wr %d))", cs(o.Recv[0].Party), coqfmt.Bool(o.Recv[0].TLS), o.Recv[0].Wire)
+		named := o.Recv[0].Named
+		if tgtKind == 1 && o.Recv[0].Wire == wDirect {
+			named = "" // direct tunnel: what the party reads is the client's own inner request, the proxy names nothing
+		}
+		recv = fmt.Sprintf("(Some (%s, %s, wr %d, %s))", cs(o.Recv[0].Party), coqfmt.Bool(o.Recv[0].TLS), o.Recv[0].Wire, cs(named))
 		if len(o.Recv) > 1 { // more than one connection carried data: not a single recipient
 			for _, ev := range o.Recv[1:] {
 				dials = append(dials, "!also-received-by "+ev.Party)
@@ -542,7 +577,7 @@ func eCase(r *rig, j *eJSON) string {
 		o := sess.request(q.Kind, scheme, q.URLHost)
 		pacRes, directRes, isLH, hn := r.oracles(tgtKind, tscheme, q.URLHost, o.Pac)
 		parts = append(parts, fmt.Sprintf("(%s, tgt %d %s %s, %s)", coqCfgd(r.desc, pacRes, directRes, isLH),
-			tgtKind, cs(tscheme), cs(q.URLHost), coqObs(o, hn)))
+			tgtKind, cs(tscheme), cs(q.URLHost), coqObs(o, hn, tgtKind)))
 		kept = append(kept, q)
 		j.Obs = append(j.Obs, o)
 	}
@@ -555,7 +590,7 @@ func eCase(r *rig, j *eJSON) string {
 		att = 0 // the model's attempts is a nat; <= 0 means one attempt in both
 	}
 	return fmt.Sprintf("{| ec_rules := %s; ec_attempts := %d%%nat; ec_failures := %d%%nat; ec_parts := %s |}",
-		coqRules(r.rules), att, r.desc.FailFirst, coqfmt.List("(cfgd * target * obs)", parts))
+		coqRules(r.ruleFields), att, r.desc.FailFirst, coqfmt.List("(cfgd * target * obs)", parts))
 }
 
 // ---------------------------------------------------------------- shards
@@ -614,6 +649,12 @@ func main() {
 	if err := os.MkdirAll(*out, 0o755); err != nil {
 		panic(err)
 	}
+	// the configuration alone decides the route: proxies named in the environment must not be used
+	for _, k := range []string{"HTTP_PROXY", "http_proxy", "HTTPS_PROXY", "https_proxy", "ALL_PROXY", "all_proxy"} {
+		os.Setenv(k, "http://envproxy.test:3128")
+	}
+	os.Unsetenv("NO_PROXY")
+	os.Unsetenv("no_proxy")
 	m := meta{ShardSize: 400, Counts: map[string]int{}, Dist: map[string]int{}}
 	ss := &shardSet{dir: *out, size: m.ShardSize}
 	if *replay != "" {
